@@ -39,15 +39,17 @@ type vBatchCall struct {
 }
 
 type vBatchEnv struct {
-	calls    []*vBatchCall
-	regs     []hrpc.RegionInfo
-	clients  []*vBatchRC
-	regSrv   []int // region -> server
-	round    int
-	backoffs int
-	cancel   context.CancelFunc
-	maxTries int
-	violated string
+	calls     []*vBatchCall
+	regs      []hrpc.RegionInfo
+	clients   []*vBatchRC
+	regSrv    []int // region -> server
+	round     int
+	backoffs  int
+	cancel    context.CancelFunc
+	ownCancel context.CancelFunc // cancels the context that one call of the batch has of its own
+	yield     bool               // the location step is a scheduling point
+	maxTries  int
+	violated  string
 }
 
 var vB *vBatchEnv
@@ -131,6 +133,10 @@ func (r *vBatchRC) QueueBatch(ctx context.Context, rpcs []hrpc.Call) {
 			bc.lastErr = nil
 		}
 	}
+	if e.ownCancel != nil && verifBool() {
+		e.ownCancel() // one call's own context ends while the batch is with the servers
+		e.ownCancel = nil
+	}
 	// the context may be cancelled while results are (partly) ready
 	if e.cancel != nil && verifBool() {
 		e.cancel()
@@ -154,6 +160,9 @@ var vErrLookup = errors.New("verif: cannot re-locate region")
 func vBatchLocate(c *client, ctx context.Context, rpc hrpc.Call) (hrpc.RegionClient, error) {
 	e := vB
 	bc := e.find(rpc)
+	if e.yield {
+		verifYield() // looking a region up takes time: goroutines started by context.AfterFunc run
+	}
 	if ctx.Err() != nil {
 		bc.lookupErr = ctx.Err()
 		return nil, ctx.Err()
@@ -264,6 +273,50 @@ func VerifSendBatch() {
 	}
 	verifAssert(allOK == allNil, "the success flag is true exactly when every result has a nil error")
 	verifObserveBool("allOK", allOK)
+	verifReach("returned")
+}
+
+// VerifSendBatchOwnContexts: one call of the batch has a context of its own, which ends before
+// the batch is sent, while it is with the servers, or never; the batch context lives. None of
+// the other calls ends with a context error, and one that succeeded keeps its nil error.
+func VerifSendBatchOwnContexts() {
+	c, e, ctx := vBatchSetup()
+	e.yield = true
+	cctx, ccancel := context.WithCancel(context.Background())
+	own := verifChoose(len(e.calls))
+	p, err := hrpc.NewPut(cctx, []byte("t"), []byte{byte('a' + own)}, map[string]map[string][]byte{"f": {"q": []byte("v")}})
+	if err != nil {
+		panic(err)
+	}
+	e.calls[own].call = p
+	switch verifChoose(3) {
+	case 0:
+		ccancel()
+		verifReach("own-context-done-before")
+	case 1:
+		e.ownCancel = ccancel
+	}
+	batch := make([]hrpc.Call, len(e.calls))
+	for i, bc := range e.calls {
+		batch[i] = bc.call
+	}
+	res, _ := c.SendBatch(ctx, batch)
+	verifQuiesce()
+	sleepAndIncreaseBackoffOverride, establishRegionOverride = nil, nil
+	ccancel()
+	verifAssert(len(res) == len(e.calls), "one result per call")
+	for i, bc := range e.calls {
+		r := res[i]
+		verifAssert(r.Msg != nil || r.Error != nil, "every call ends with a response or an error")
+		if i == own {
+			continue
+		}
+		// (NotExecutedError is legitimate: a batch of which one call cannot be located is not sent)
+		verifAssert(r.Error != context.Canceled, "a call does not end with the error of another call's own context")
+		if bc.succeeded {
+			verifAssert(r.Error == nil, "a call that succeeded keeps a nil error")
+		}
+	}
 	verifReach("returned")
 }
 
